@@ -189,6 +189,9 @@ ParamAtoms ==
     \* both names FromV3 tries for a body parameter are taken by query parameters (x carries the second parameter)
     Atom("param", "body+requestBody@query", "param:op2:query:body", "op2", "", Prm("query", "body", FALSE, KV("type", S("string"))),
          Prm("query", "requestBody", FALSE, KV("type", S("string"))), 1),
+    \* parameter names are unique per location only: a header parameter and a shared query parameter named like the body parameter
+    Atom("param", "body@header", "param:op2:header:body", "op2", "", Prm("header", "body", FALSE, KV("type", S("string"))), Nul, 2),
+    Atom("param", "requestBody@query", "param:op2:query:requestBody", "op2", "", Prm("query", "requestBody", TRUE, KV("type", S("integer"))), Nul, 2),
     Atom("param", "z@op2:query", "param:op2:query:zz", "op2", "", Prm("query", "zz", TRUE, KV("type", S("integer")) @@ KV("minimum", I(1))), Nul, 2)}
    \cup SerParamAtoms
 
@@ -331,6 +334,10 @@ BodyAtoms ==
          O(KV("type", S("array")) @@ KV("items", O(KV("type", S("string")) @@ KV("x-nullable", B(TRUE)))))), Nul, 1),
     Atom("body", "body:shared.xnull", "body", "shared", "B1", BodyPrm("body", FALSE,
          O(TObj @@ PropA(O(KV("type", S("string")) @@ KV("x-nullable", B(TRUE)))))), Nul, 1),
+    \* names of body parameters: the two names FromV3 falls back to, inline and shared (a shared one under a key unlike its name)
+    Atom("body", "body:named.requestBody", "body", "op", "", BodyPrm("requestBody", TRUE, PetRef), Nul, 2),
+    Atom("body", "body:shared.named.requestBody", "body", "shared", "B1", BodyPrm("requestBody", FALSE, ObjBody), Nul, 2),
+    Atom("body", "body:shared.keyIsName", "body", "shared", "body", BodyPrm("body", TRUE, PetRef), Nul, 3),
     Atom("body", "body:arrayOfRef", "body", "op", "", BodyPrm("body", TRUE, O(KV("type", S("array")) @@ KV("items", PetRef))), Nul, 2),
     \* a shared body parameter stored under the key of the definition it refers to (request bodies are a namespace of their own in OpenAPI 3)
     Atom("body", "body:shared=Pet", "body", "shared", "Pet", BodyPrm("pet", TRUE, PetRef), Nul, 2)}
